@@ -132,7 +132,18 @@ func zzvC03Scenario(base string, scn *zzvScn) *sched.Scenario {
 				})
 			}
 			x.OnStep = func(x *sched.Exec) { w.stepOracle(x.LastKind) }
-			x.StateKey = func() uint64 { return zzvC03StateKey(w) }
+			// Cheap key for counting distinct states (state words and pointers); the complete key
+			// zzvC03StateKey (with file bytes) is only needed for pruning, which no tier uses.
+			x.StateKey = func() uint64 {
+				h := uint64(0)
+				for _, c := range w.ctrs {
+					h = h*1099511628211 ^ uint64(c.state.load())
+					if c.ptr.count != nil {
+						h ^= 0x9e3779b97f4a7c15
+					}
+				}
+				return h
+			}
 		},
 		Check: func(x *sched.Exec) ([]string, uint64) {
 			r := x.Scratch.(*zzvC03Run)
